@@ -141,7 +141,7 @@ CLAIMS = {
         note=BASE_NOTE + " Declaration/selection order changes are column permutations handled by the harness; inherits C02's fragment."),
     'C08': dict(
         text=("Machine-checked for ALL finite histories (any length, any nesting) of block entries / exits / exceptions and iterator creations, "
-              "advances, closes, finalisations and the(...) evaluations (succeeding or failing with the exception handled on the spot): C08_confined (mode = innermost enclosing mode-setting block, expression stack = enclosing "
+              "advances (also advances during which a user predicate opens a symbolic block of its own and runs a complete nested evaluate(): C08_nested_evaluation_transparent), closes, finalisations and the(...) evaluations (succeeding or failing with the exception handled on the spot): C08_confined (mode = innermost enclosing mode-setting block, expression stack = enclosing "
               "query blocks), C08_block_restores (leaving a block by any path restores what was active before it whatever happened to iterators "
               "inside), C08_outside. The model reads from the source, through the translator on every run, whether a yield of An.evaluate sits "
               "inside `with symbolic_mode(None)`: the theorems stop compiling if it does. Tie: mode variable, in_symbolic_mode(), what a @symbol "
@@ -198,9 +198,12 @@ CLAIMS = {
               "compared with the builder model and the intended tree, the (item, conclusion) rows of three consecutive evaluations, "
               "caching off and on, with the model (sequences) and the ripple-down-rule interpreter (multisets); 40 % of the programs are "
               "GROWN: the base block is written in several `with rule_mode(query)` blocks with an evaluation of the rule in between "
-              "(C12_grown_alternatives: alternatives attached at the conditions root after re-entering build the tree a single block builds)."),
-        design='7/C12', technique='Coq proof (builder correctness by mutual induction with one-hole contexts; evaluation = RDR by mutual induction) + translator-extracted linking flags + structural and result correspondence',
-        note=BASE_NOTE + " One rule variable with conditions on its attributes (a branch is decided per item); joins in branch conditions and next_rule are outside the model. Re-entering `with rule_mode(query)` attaches at the conditions root: grown programs are generated only where that is the same program (the root is still the base rule, or only alternatives follow). The evaluation model (fire) abstracts ExceptIf/Alternative._evaluate__ for a bound item; it is tied by the row correspondence. Four defects were repaired in /repo (see known_findings.json)."),
+              "(C12_grown_alternatives: alternatives attached at the conditions root after re-entering build the tree a single block builds); "
+              "30 % of the programs have TWO rule variables (a match is an assignment: attributes of either variable and a join; every "
+              "branch mentions both variables or the base rule starts with the join), 40 % are evaluated after an evaluation that was "
+              "abandoned after 1-12 results."),
+        design='7/C12 + 12.8', technique='Coq proof (builder correctness by mutual induction with one-hole contexts; evaluation = RDR by mutual induction) + translator-extracted linking flags + structural and result correspondence',
+        note=BASE_NOTE + " The model decides a branch per MATCH (an item, or an assignment of two rule variables whose every conclusion variable is bound by the branch that fires); a refinement that introduces a further rule variable, and next_rule, are outside the model. Re-entering `with rule_mode(query)` attaches at the conditions root: grown programs are generated only where that is the same program (the root is still the base rule, or only alternatives follow). The evaluation model (fire) abstracts ExceptIf/Alternative._evaluate__ for a bound item; it is tied by the row correspondence. Four defects were repaired in /repo (see known_findings.json)."),
     'C11': dict(
         text=("Machine-checked over the P-model, for every rule head (constructor arguments = rule variables, attribute chains, indexes, "
               "calls, constants) and every body the user can write, any number of rule variables, heap and duplicate-free domains: "
